@@ -19,7 +19,6 @@ import (
 	"os"
 	"path/filepath"
 	"regexp"
-	"runtime/pprof"
 	"strconv"
 	"strings"
 	"sync"
@@ -36,16 +35,18 @@ func init() {
 	runner.Register(&runner.Check{
 		ID:    "C07",
 		Level: "exploration",
-		Rule: "case = fixed prelude (engine On, both bodies buffered, limits 256 bytes ProcessPartial, two data sets, three companion rules) with ONE hole filled by: " +
-			"every directive of directivesmap.gen.go (+Include, an unknown one) x {29 generic argument shapes: missing, On, abc, -1, 0, `1 2 \"X\"`, quoted, unterminated quote, 70 kB token, binary, ...; per-directive valid and near-valid values} at two positions (before / after the rules); " +
-			"every registered action (+2 unknown spellings) x {60 value shapes + per-action values} and x `%{VAR.k}` for every variable name, each in 3 (quick) / 7 (thorough) rule templates (SecAction in all 5 phases, per-match with capture, chain link, denying chain starter, SecDefaultAction, SecRuleUpdateActionById, response phase multiMatch); 9 macro positions x every variable name; " +
-			"every ctl option x {generic + per-option values: valid, negative, zero, huge, garbage} x phases 1-4 (thorough 1-5, + per-match), every variable name as ctl target; " +
-			"every registered operator (+2 unknown) x 66 argument shapes x {plain, negated} on 10 targets in phases 2 and 4 (@rbl and @inspectFile only constructed, never evaluated), @rx arguments again with SecRxPreFilter On; " +
-			"every variable name (+4 unknown spellings) x 48 selector forms, as rule target in all 5 phases, as SecRuleUpdateTargetById/ByTag argument; every transformation (+3 unknown), alone, doubled, quoted, thorough: all ordered pairs; " +
-			"13 roles x 13 roles x 3 strings for one string used twice (one WAF; two WAFs alive in one process); a sample of all classes with debug level 9 + audit engine On (4 formats x 2 writers x 3 part sets x 5 disruptive actions x 5 phases); " +
-			"thorough: every text obtained from a hole text by deleting or duplicating one delimiter (one of \"',:|\\/=;%{}). " +
-			"Every accepted configuration serves the battery (quick 8, thorough 18 sequences: canonical GET/POST, bodies of limit-1/limit/limit+1 bytes, 0/1-byte writes, binary bytes everywhere, multipart with file, JSON, XML, reversed order, bodies before headers, response only, io.Reader bodies, repeated calls, one-byte chunks, no calls). " +
-			"distinct_nontrivial = distinct accepted configurations (they reached the transaction battery)",
+		Rule: fmt.Sprintf("case = fixed prelude (engine On, both bodies buffered, both limits %d bytes ProcessPartial, two data sets, three companion rules) with ONE hole filled by: "+
+			"every directive of directivesmap.gen.go + Include + 2 unknown (%d names) x {%d generic argument shapes: missing, On, abc, -1, 0, `1 2 \"X\"`, quoted, unterminated quote, 70 kB token, binary bytes, ...; per-directive valid and near-valid values} at two positions (before / after the rules); "+
+			"every registered action + 2 unknown spellings (%d) x {%d value shapes + per-action values} and x `%%{VAR.k}` for every variable name, each in 3 (quick) / 7 (thorough) rule templates (SecAction in all 5 phases, per-match with capture, chain link; thorough also denying chain starter, SecDefaultAction, SecRuleUpdateActionById, response phase with multiMatch); 9 macro positions x every variable name; "+
+			"every ctl option + 2 unknown (%d) x {%d generic values + per-option values: valid, negative, zero, huge, garbage} x phases 1-4 (thorough 1-5 and per-match), every variable name as ctl target; "+
+			"every registered operator + 2 unknown (%d) x %d argument shapes x {plain, negated} on 10 targets in phases 2 and 4 (@rbl and @inspectFile only constructed, never evaluated), the @rx arguments again with SecRxPreFilter On; "+
+			"every variable name + 4 other spellings x %d selector forms as rule target in all 5 phases (thorough also as SecRuleUpdateTargetById/ByTag argument); every transformation + 3 other spellings (%d), alone, doubled, quoted (thorough: all ordered pairs); "+
+			"%d roles x %d roles x %d strings for one string used twice (in one WAF; in two WAFs alive in one process); a sample of all classes with debug level 9 and the audit engine On (4 formats x 2 writers x 3 part sets x 5 disruptive actions x 5 phases); "+
+			"thorough only: every text obtained from a hole text by deleting or duplicating one delimiter, one of %q. "+
+			"Every accepted configuration serves the battery of call sequences (quick %d, thorough %d: canonical GET/POST, bodies of limit-1/limit/limit+1 bytes, 0/1-byte writes, binary bytes in every field, multipart with file, JSON, XML, reversed order, bodies before headers, response only, io.Reader bodies, repeated calls, one-byte chunks, no calls; Close twice after each). "+
+			"distinct_nontrivial = distinct accepted configurations (the ones that reached the transaction battery)",
+			bodyLimit, len(directiveNames), len(genericArgs), len(actionNames), len(genericValues), len(ctlOptions), len(ctlGeneric), len(operatorNames), len(operatorArgs),
+			len(selectorForms("V")), len(transformationNames), len(roles), len(roles), len(roleStrings), delimiters, len(quickBattery), len(battery)),
 		Assumptions: []string{
 			"a transaction is not used after Close (Close twice is exercised); one goroutine per transaction",
 			"operators that leave the process (@rbl DNS, @inspectFile exec) are constructed but never evaluated; audit writers HTTPS/Syslog are initialised but never written to over the network",
@@ -57,7 +58,17 @@ func init() {
 	})
 }
 
-const watchdog = 20 * time.Second
+// watchdog time per case. C07_WATCHDOG (seconds) and C07_INJECT_HANG (a class
+// name: cases of that class never return) exist only to exercise the watchdog
+// path itself; they are never set by the driver.
+var watchdog = func() time.Duration {
+	if s, err := strconv.Atoi(os.Getenv("C07_WATCHDOG")); err == nil && s > 0 {
+		return time.Duration(s) * time.Second
+	}
+	return 20 * time.Second
+}()
+
+var injectHang = os.Getenv("C07_INJECT_HANG")
 
 // MarshalJSON keeps arbitrary bytes of the configuration replayable.
 func (k kase) MarshalJSON() ([]byte, error) {
@@ -198,6 +209,9 @@ func closeWAF(w coraza.WAF) string {
 // single stage to run ("" = everything).
 func execute(e *env, k kase, seqs []int, only string) *result {
 	r := &result{}
+	if injectHang != "" && k.Class == injectHang {
+		select {}
+	}
 	memoize.Reset()
 	defer e.cleanup(k.Conf + k.Conf2)
 	var wafs []coraza.WAF
@@ -245,7 +259,7 @@ func execute(e *env, k kase, seqs []int, only string) *result {
 					obs = observe(tx)
 				})
 				if tx != nil {
-					if p := probe.Safe(func() { _ = tx.Close() }); p != "" && pan == "" {
+					if p := probe.Safe(func() { _ = tx.Close(); _ = tx.Close() }); p != "" && pan == "" {
 						pan = "Close: " + p
 					}
 				}
@@ -292,6 +306,7 @@ func guarded(e *env, k kase, seqs []int, only string, d time.Duration) (*result,
 }
 
 var (
+	reFired  = regexp.MustCompile(`/[0-9]+;`)
 	reNum    = regexp.MustCompile(`[0-9]+`)
 	reQuoted = regexp.MustCompile(`"(?:[^"\\]|\\.)*"`)
 	reHex    = regexp.MustCompile(`0x[0-9a-fA-F]+`)
@@ -396,12 +411,6 @@ type progress struct {
 }
 
 func run(c *runner.Ctx) {
-	if pf := os.Getenv("C07_CPUPROFILE"); pf != "" && c.Worker == 3 {
-		if f, err := os.Create(pf); err == nil {
-			_ = pprof.StartCPUProfile(f)
-			defer pprof.StopCPUProfile()
-		}
-	}
 	e, err := newEnv(c.Work)
 	if err != nil {
 		c.Incomplete("cannot prepare the private directories: " + err.Error())
@@ -541,7 +550,15 @@ func executor(c *runner.Ctx, e *env, hb *heartbeat, seqs []int, p *progress, fro
 	return counts
 }
 
+var dumpFile *os.File
+
 func record(c *runner.Ctx, k kase, r *result) {
+	if d := os.Getenv("C07_DUMP_DIR"); d != "" {
+		if dumpFile == nil {
+			dumpFile, _ = os.Create(filepath.Join(d, fmt.Sprintf("dump-%d", c.Worker)))
+		}
+		fmt.Fprintf(dumpFile, "%s\t%q\t%s\n", k.Class, strings.TrimPrefix(k.Conf, prelude), r.outcome)
+	}
 	c.Count("configurations", 1)
 	c.Count("evaluations", int64(r.builds+r.seqs))
 	c.Count("sequences_run", int64(r.seqs))
@@ -554,7 +571,13 @@ func record(c *runner.Ctx, k kase, r *result) {
 	} else {
 		c.Count("configurations_rejected", 1)
 	}
-	c.Outcome(r.outcome)
+	if strings.Contains(k.Conf, "@@") || strings.Contains(k.Conf2, "@@") {
+		// the private directory has a random name and may end up in operator
+		// arguments: the number of fired rules is not a function of the case
+		c.Outcome(reFired.ReplaceAllString(r.outcome, "/*;"))
+	} else {
+		c.Outcome(r.outcome)
+	}
 	for sig, p := range signatures(r.panics) {
 		c.Count("panics", 1)
 		kk := k
